@@ -49,7 +49,12 @@ TOL = F(1, 10**9)
 PATHS = [("a",), ("b",), ("c",), ("d",), ("e",), ("n", "p"), ("n", "q"), ("m", "x"), ("m", "y"), ("",), ("m", "")]
 PIDX = {p: i for i, p in enumerate(PATHS)}
 WEIGHTS = ["0", "1/8", "1/4", "3/8", "1/2", "1", "2", "3/2", "1/3", "1/100000",
-           "1/1073741824", "1048575/1048576", "1000000"]
+           "1/1073741824", "1048575/1048576", "1000000",
+           "1/1099511627776", "1/1152921504606846976",            # 2^-40, 2^-60: far below isclose's atol
+           "1000001", "1000000000", "1000001000",                 # large, relative gaps 1e-6
+           "1/10", "7/10", "1/5", "1/7"]                          # non-dyadic
+TINY = F(1, 2**27)
+NEAR = ["1000", "1000001/1000", "1000000", "1000001", "1000000000", "1000001000"]    # 1e3 .. 1e9, relative gaps 1e-6
 SPREAD = ["1/" + "1" + "0" * 150, "1" + "0" * 150, "1"]          # score spread ~ 690
 # values of a variable: ints, strings or booleans (falsy members 0, "", False), one type per variable
 VALS = {"int": [0, 1, 2], "str": ["", "x", "y"], "bool": [False, True]}
@@ -102,16 +107,23 @@ def gen_table(rng, paths, hetero=False, positive=False, ctor=None, vt=None, allo
     nrows = rng.randint(1, 4)
     if allow_empty and rng.random() < .08:
         return {"rows": [], "w": [], "ctor": "probs"}
-    rows = gen_rows(rng, paths, nrows, hetero=hetero, dup=rng.random() < .2, vt=vt)
+    ten = pool is None and not positive and rng.random() < .06       # ten rows of 0.1 (float sum is not 1.0)
+    if ten:
+        nrows = 10
+    rows = gen_rows(rng, paths, nrows, hetero=hetero, dup=rng.random() < .2 and not ten, vt=vt)
+    if pool is None and rng.random() < .1:
+        pool = NEAR
     pool = [w for w in (pool or WEIGHTS) if not (positive and w == "0")]
     ws = [rng.choice(pool) if rng.random() < .8 else "0" for _ in rows]
+    if ten:
+        ws = ["1/10"] * len(rows)
     if positive:
         ws = [w if w != "0" else "1/4" for w in ws]
     elif all(w == "0" for w in ws) and rng.random() < .7:
         ws[0] = "1/2"
     return {"rows": [nest(r) for r in rows], "w": ws,
             "ctor": ctor or rng.choice(["probs", "probs", "logits", "logits", "uniform"]),
-            "sup": rng.choice(["list", "tuple"]), "arr": rng.random() < .3}
+            "sup": rng.choice(["list", "tuple"]), "arr": rng.random() < .3, "int_w": rng.random() < .4}
 
 
 def tw(t):
@@ -172,7 +184,7 @@ def gen_ft_case(rng):
         tabs = [gen_table(rng, p1, vt=vt), gen_table(rng, p2, vt=vt), gen_table(rng, p3, vt=vt)]
         expr = ["and", ["and", ["t", 0], ["t", 1]], ["t", 2]]
     elif shape == "mix":
-        a = rng.choice(["0", "1/4", "1/2", "1", "1/10"])
+        a = rng.choice(["0", "1/4", "1/2", "1", "1/10", "1/3", "7/10", "1/1099511627776", "1/1152921504606846976"])
         bb = str(1 - F(a)) if rng.random() < .7 else rng.choice(["0", "1/3", "2"])
         tabs = [gen_table(rng, p1, vt=vt, allow_empty=True), gen_table(rng, p1, vt=vt, allow_empty=True)]
         if rng.random() < .5 and tabs[0]["rows"] and tabs[1]["rows"]:
@@ -288,6 +300,8 @@ def ft_compare(case, res, val):
         return None if not defined else "msdm raised %s where the model's mix precondition holds" % res["raised"]
     if not res.get("repeat_same", True):
         return "evaluating the same expression twice on the same table objects gave different results"
+    if not res.get("first_result_unchanged", True):
+        return "the first result changed after its operands were used again"
     if not res.get("operands_unchanged", True):
         return "evaluating the expression changed its operand tables"
     if not defined:
@@ -432,12 +446,21 @@ def gen_layout(rng, tier):
                            for row in cells)
         if rng.random() < .5:
             layout = "\n" + layout + "\n" + ind
-        fp = rng.choice(["0", "1/4", "1/2", "1", "0", "1", "3/4", "1/1073741824", "1048575/1048576"])
+        fp = rng.choice(["0", "1/4", "1/2", "1", "0", "1", "3/4", "1/1073741824", "1048575/1048576",
+                         "1/1099511627776", "1/1152921504606846976", "1/3", "1/10", "7/10", "1/7"])
+        big = rng.random() < .5      # configured rewards (also large, also int-typed): the terminal state must pay nothing of them
+        rw = {"goal_reward": rng.choice(["10", "1000000000", "7/10"]) if big else None,
+              "step_cost": rng.choice(["-1", "-1000000", "-1/3"]) if big else None,
+              "collision_cost": rng.choice(["-5", "-1000", "-1/10"]) if big else None,
+              "reward_int": rng.random() < .5}
         return {"kind": "gg", "layout": layout, "cells": cells, "template": template,
                 "fence_p": fp, "fence_int": rng.random() < .5,
                 "sym_form": rng.choice([None, "dict", "tuple"]),
-                "collision_prob": rng.choice([None, None, None, "1/2"]),
+                "collision_prob": rng.choice([None, None, None, "1/2"]), **rw,
                 "max_states": 40 if tier == "quick" else 60}
+
+
+WKEYS = ("layout", "fence_p", "fence_int", "sym_form", "collision_prob", "goal_reward", "step_cost", "collision_cost", "reward_int")
 
 
 def gen_games(rng, tier, n):
@@ -447,14 +470,16 @@ def gen_games(rng, tier, n):
     out = []
     while len(out) < n:
         c = gen_layout(rng, tier)
-        c["warmup"] = [{k: out[-1][k] for k in ("layout", "fence_p", "fence_int", "sym_form", "collision_prob")}] if out else []
+        # a varying number (0-3) of other games constructed and used before this one in the same process
+        nw = min(rng.randint(0, 3), len(out))
+        c["warmup"] = [{k: o[k] for k in WKEYS} for o in out[len(out) - nw:]]
         out.append(c)
         if rng.random() < .35 and len(out) < n:
             t = json.loads(json.dumps(c))
             t["fence_p"] = rng.choice([x for x in ["0", "1/4", "1/2", "1", "3/4"] if x != c["fence_p"]])
             t["collision_prob"] = "1/2" if c["collision_prob"] is None else None
             t["twin"] = True
-            t["warmup"] = [{k: c[k] for k in ("layout", "fence_p", "fence_int", "sym_form", "collision_prob")}]
+            t["warmup"] = [{k: c[k] for k in WKEYS}] + (c["warmup"][:1] if rng.random() < .5 else [])
             out.append(t)
     return out
 
@@ -642,6 +667,33 @@ def run(ctx0):
         if res.get("repeat_mismatch"):
             ctx.violation("C18:gridgame:repeated-or-reordered-call-differs",
                           {"case": case, "mismatch": res["repeat_mismatch"]}, found=True)
+        for pr in res.get("problems", []):
+            ctx.violation("C18:gridgame:object-state:" + pr["what"], {"case": case, "problem": pr}, found=True)
+        nonterm = [st["s"] for st in res["states"] if st["s"] is not None]
+        if res.get("reach_complete"):
+            # the search finished: the listed states must contain the initial state and be closed under the
+            # positive-probability transitions msdm itself reports (tiny branches included)
+            have = {json.dumps(x) for x in nonterm}
+            missing = None
+            if json.dumps(res["facts"]["init"]) not in have:
+                missing = {"missing": res["facts"]["init"], "why": "initial state"}
+            for st in res["states"]:
+                for j, tr in enumerate(st["tr"]):
+                    for ns, pq in tr:
+                        if not isinstance(pq, str) and vlib.frac(pq) > 0 and missing is None:
+                            if ns is None and not res["terminal_reachable"] and st["s"] is not None:
+                                missing = {"missing": None, "from": st["s"], "ja": JAS[j]}
+                            elif ns is not None and json.dumps(ns) not in have:
+                                missing = {"missing": ns, "from": st["s"], "ja": JAS[j], "p": float(vlib.frac(pq))}
+            feats["reachable_set_closure_checked"] = feats.get("reachable_set_closure_checked", 0) + 1
+            if missing:
+                ctx.violation("C18:gridgame:reachable-states-not-closed", {"case": case, **missing}, found=False)
+        if len(nonterm) == 1:
+            feats["single_state_game"] = feats.get("single_state_game", 0) + 1
+        for nm in ("goal_reward", "collision_cost"):
+            if case.get(nm) is not None:
+                feats["configured_" + nm] = feats.get("configured_" + nm, 0) + 1
+        feats["warmup_games=%d" % len(case.get("warmup", []))] = feats.get("warmup_games=%d" % len(case.get("warmup", [])), 0) + 1
         if case.get("template"):
             feats["template:" + case["template"]] = feats.get("template:" + case["template"], 0) + 1
         if case.get("twin"):
@@ -671,6 +723,18 @@ def run(ctx0):
             if "raised" in res:
                 counters["ft_mix_assert_cases"] += 1
             distinct.add(vlib.structural_hash([case["tables"], case["expr"]]))
+            allw = [F(w) for t in case["tables"] for w in tw(t)]
+            for nm, hit in (("ft:tiny_positive_weight_or_scalar", any(0 < x <= TINY for x in allw) or
+                             any(isinstance(x, str) and "/" in x and 0 < F(x) <= TINY for x in json.dumps(case["expr"]).replace('"', " ").split())),
+                            ("ft:large_weights_with_1e-6_relative_gap", any(a != b and a >= 1000 and abs(a - b) <= a / 10**5 for a in allw for b in allw)),
+                            ("ft:non_dyadic_weight", any(x.denominator & (x.denominator - 1) for x in allw)),
+                            ("ft:ten_rows_of_one_tenth", any(len(t["rows"]) >= 10 for t in case["tables"])),
+                            ("ft:int_typed_weights", any(t.get("int_w") and t["w"] and all(F(w).denominator == 1 for w in t["w"]) and t.get("ctor") == "probs" for t in case["tables"])),
+                            ("ft:one_row_table", any(len(t["rows"]) == 1 for t in case["tables"])),
+                            ("ft:empty_table", any(len(t["rows"]) == 0 for t in case["tables"])),
+                            ("ft:tiny_positive_result_weight", "rows" in res and any(not isinstance(w, str) and 0 < vlib.frac(w) <= TINY for w in res["w"]))):
+                if hit:
+                    feats[nm] = feats.get(nm, 0) + 1
             why = ft_compare(case, res, v)
             if why:
                 orc = oracle_ft(case, res)
@@ -703,7 +767,12 @@ def run(ctx0):
                 counters["gg_transitions"] += 1
                 if st["s"] is not None and not st["is_absorbing"]:
                     distinct.add(vlib.structural_hash([case["layout"], case["fence_p"], case["collision_prob"], st["s"], ja]))
-                for kk in features(f, st["s"], ja):
+                fs = features(f, st["s"], ja)
+                if "through_fence" in fs and 0 < F(case["fence_p"]) <= TINY:
+                    fs["through_fence_with_tiny_success_prob"] = 1
+                    if any(not isinstance(pq, str) and 0 < vlib.frac(pq) <= TINY for _, pq in st["tr"][j]):
+                        fs["tiny_probability_outcome_listed_by_msdm"] = 1
+                for kk in fs:
                     feats[kk] = feats.get(kk, 0) + 1
                 if len(bits) != len(names):
                     ctx.violation("C18:gridgame:absorbing-flag-differs", {"case": case, "state": st["s"], "is_absorbing": st["is_absorbing"]}, found=False)
